@@ -550,8 +550,13 @@ def resolver_provenance(F, res, only=None, rule="S4"):
             out |= nxt
             cur = nxt
         return out
+    only_helpers = set()
+    if only:
+        # a lookup that moved into a helper of the function in question still belongs to it
+        for q in [p_ for p_ in F.fns if p_.startswith(only)]:
+            only_helpers |= {_re.sub(r"(::\{closure#\d+\})+$", "", h) for h in F.with_helpers(q, depth=2) if h in F.fns}
     for root, i, f, t, kind in sites:
-        if only and not root.startswith(only):
+        if only and not root.startswith(only) and root not in only_helpers:
             continue
         n += 1
         want = RESOLVER_TABLE.get(assign.get((root, i), (None, None)))
